@@ -104,8 +104,9 @@ def en(ctx, enum_cls, x):
     in symbolic runs the symbolic integer stands in for the member"""
     if ctx.symbolic:
         from symx import stubs
-        if not stubs.ENUM_FAITHFUL:
-            return x
+        from symx.core import SymInt, SymBool
+        if not stubs.ENUM_FAITHFUL and isinstance(x, (SymInt, SymBool)):
+            return x            # concrete values are handed over as members in symbolic runs too
     try:
         return enum_cls(x)
     except ValueError:
